@@ -53,6 +53,31 @@ def erased_finals(code):
     return [repr(i.final) for i in code._instrs if not i.final[0].startswith('_dbg') and i.final[0] != '_empty_block']
 
 
+def chain_programs():
+    """every IF / ELSEIF chain of 1-4 arms, with and without ELSE, under every truth assignment of its conditions (arms
+    overlap: more than one condition may hold), and SELECT CASE with overlapping clauses: exactly one arm may run"""
+    out = []
+    for k in (1, 2, 3, 4):
+        for has_else in (False, True):
+            for bits in range(1 << k):
+                L = [f'c{i}% = {-1 if bits >> i & 1 else 0}' for i in range(k)]
+                for i in range(k):
+                    L.append(('IF' if i == 0 else 'ELSEIF') + f' c{i}% THEN')
+                    L.append(f'  PRINT "arm{i}"')
+                if has_else:
+                    L += ['ELSE', '  PRINT "else"']
+                L += ['END IF', 'PRINT "done"']
+                out.append('\n'.join(L) + '\n')
+    for v in (1, 2, 3, 9):
+        for has_else in (False, True):
+            L = [f'v% = {v}', 'SELECT CASE v%', 'CASE 1, 2', '  PRINT "a"', 'CASE 2 TO 3', '  PRINT "b"', 'CASE IS > 0', '  PRINT "c"']
+            if has_else:
+                L += ['CASE ELSE', '  PRINT "e"']
+            L += ['END SELECT', 'PRINT "done"']
+            out.append('\n'.join(L) + '\n')
+    return out
+
+
 def task(t):
     return real.big_frame(lambda: _task(t))
 
@@ -104,6 +129,8 @@ def run(chk):
         'ON ERROR GOTO h\nPRINT 1 \\ 0\nPRINT "after"\nEND\nh: RESUME NEXT\n',
         'CALL p\nSUB p\nEND SUB\nFUNCTION f\nEND FUNCTION\n',
     ]
+    special += chain_programs()
+    nprog += len(special)
     for i in range(nprog):
         if i < len(special):
             src, inputs = special[i], []
